@@ -112,6 +112,17 @@ CLAIMED = {
 
 PENDING = {}
 
+# properties whose model rests on table-shaped Rust functions that translate.py regenerates into Lean
+# on every run (DESIGN.md §13); must match TIE_TOPICS in ./check
+TIE = {
+    "C04": "message.rs code tables (both directions)", "C05": "message.rs code tables (both directions)",
+    "C19": "sign_type.rs from_bytes / dimensions / to_bytes tables and the virtual sign's configuration digest",
+    "C16": "response_expected", "C18": "delay_after_send / delay_after_receive", "C20": "configure_port setters and the two constructor timeouts",
+    "C12": "VirtualSign dispatch and per-handler state tables", "C13": "VirtualSign dispatch and per-handler state tables",
+    "C14": "VirtualSign dispatch and per-handler state tables",
+    "C17": "message.rs code tables and the serial classification tables",
+}
+
 
 def main():
     props = [json.loads(l) for l in open(os.path.join(ROOT, "properties.jsonl"))]
@@ -121,6 +132,9 @@ def main():
         pid = p["id"]
         if pid in CLAIMED:
             tech, text, note, ref = CLAIMED[pid]
+            if pid in TIE:
+                tech += "; static tie: %s re-translated from /repo into lean/Flipdot/Generated on every run and proved equal to the model on the whole domain (lean/Flipdot/Tie)" % TIE[pid]
+                note += " Static tie (DESIGN.md §13): when translate.py does not recognise the shape of the source the topic is reported as unavailable in the evidence and the differential correspondence alone ties that part."
             checks.append({
                 "property_id": pid,
                 "quick_cmd": "./check %s --tier quick" % pid,
